@@ -29,7 +29,7 @@ theorem tryInit_ok_facts (H : Bytes → Bytes) (features : List Nat) (read : Nat
     (a : Archive) (h : tryInit H features read = .ok a) :
     configAccepted a.config = true ∧
     (∀ i ∈ a.sourceOrder, i < a.chunks.length) ∧
-    (∀ d ∈ a.chunks, 1 ≤ d.archiveSize ∧ d.archiveOffset ≤ usizeMax ∧ d.checksum.length ≤ 64) ∧
+    (∀ d ∈ a.chunks, 1 ≤ d.archiveSize ∧ d.archiveOffset + d.archiveSize ≤ usizeMax ∧ d.checksum.length ≤ 64) ∧
     a.headerChecksum.length ≤ 64 := by
   obtain ⟨pre, rest, dict, params, cc, compr, cfg, w, rfl⟩ := tryInit_ok_inv h
   refine ⟨configFromParams_ok w.hcfg, ?_, ?_, ?_⟩
@@ -146,7 +146,7 @@ theorem bh_tiOk (H : Bytes → Bytes) (hH : ∀ x, (H x).length = 64) (features 
     (hcfg : configFromParams p = .ok cfg) (hcompr : compressionFromDict features c = .ok compr)
     (hord : ∀ i ∈ d.rebuildOrder, i < d.chunkDescriptors.length)
     (hsz : ∀ cd ∈ d.chunkDescriptors, 1 ≤ cd.archiveSize)
-    (hoff : ∀ cd ∈ d.chunkDescriptors, (buildHeader H d none).length + cd.archiveOffset ≤ usizeMax)
+    (hoff : ∀ cd ∈ d.chunkDescriptors, (buildHeader H d none).length + cd.archiveOffset + cd.archiveSize ≤ usizeMax)
     (hlen : (encodeDictionary d).length + 86 ≤ usizeMax) :
     TiOk H features (honestReadAt (buildHeader H d none ++ data)) (bhPre d) (bhRest H d) d p c compr cfg := by
   have hu : usizeMax = 2 ^ 64 - 1 := rfl
@@ -191,7 +191,7 @@ theorem tryInit_buildHeader (H : Bytes → Bytes) (hH : ∀ x, (H x).length = 64
     (hcfg : configFromParams p = .ok cfg) (hcompr : compressionFromDict features c = .ok compr)
     (hord : ∀ i ∈ d.rebuildOrder, i < d.chunkDescriptors.length)
     (hsz : ∀ cd ∈ d.chunkDescriptors, 1 ≤ cd.archiveSize)
-    (hoff : ∀ cd ∈ d.chunkDescriptors, (buildHeader H d none).length + cd.archiveOffset ≤ usizeMax)
+    (hoff : ∀ cd ∈ d.chunkDescriptors, (buildHeader H d none).length + cd.archiveOffset + cd.archiveSize ≤ usizeMax)
     (hlen : (encodeDictionary d).length + 86 ≤ usizeMax) :
     ∃ a, tryInit H features (honestReadAt (buildHeader H d none ++ data)) = .ok a ∧
       a.config = cfg ∧ a.hashLength = p.chunkHashLength ∧ a.compression = compr ∧
